@@ -319,6 +319,188 @@ def flush(ctx, pending):
     pending.clear()
 
 
+# ---------------------------------------------------------------------------
+# the store itself: real _ModificationStore / scopes.py against the Lean model (Model/Rewrite/Store.lean)
+# ---------------------------------------------------------------------------
+def gen_store_regs(rng, case):
+    """registrations for the store run: the scope registrations of gen_regs plus explicit requests with replacement
+    lengths (replace_at / delete_at) that may overlap, scopes on data blocks, ids handed out in shuffled order"""
+    text = case["text"]
+    regs = [dict(r) for r in gen_regs(rng, case)]
+    for r in regs:
+        if r["kind"] == "at":
+            r["kind"], r["repl"] = "specific", 0
+    allb = list(range(len(text)))
+    for _ in range(rng.randint(0, 5)):
+        b = rng.choice(allb)
+        size = emodify.block_size(text[b])
+        lay = emodify.block_layout(text[b]) if text[b]["kind"] == "code" else list(range(size + 1))
+        off = rng.choice(lay) if lay else 0
+        k = rng.random()
+        if k < 0.35:
+            repl = 0
+        elif k < 0.8:
+            ends = [x for x in lay if x >= off]
+            repl = (rng.choice(ends) - off) if ends else 0
+        else:
+            repl = rng.randint(0, max(0, size - off))
+        regs.append({"kind": "specific", "block": b, "off": off, "repl": repl})
+    if rng.random() < 0.2:
+        data = [i for i, d in enumerate(text) if d["kind"] != "code"]
+        if data:
+            regs.append({"kind": "single", "block": rng.choice(data), "pos": rng.choice(["entry", "exit", "anywhere"])})
+    rng.shuffle(regs)
+    ids = list(range(len(regs)))
+    if rng.random() < 0.5:
+        rng.shuffle(ids)
+    return [dict(r, id=i) for r, i in zip(regs, ids)]
+
+
+def store_case(ctx, case, regs, pending):
+    """run the real store on every block of the module; queue the model's request"""
+    import logging
+
+    import gtirb
+    import gtirb_functions
+    from gtirb_capstone.instructions import GtirbInstructionDecoder
+    from gtirb_rewriting import AllBlocksScope, AllFunctionsScope, BlockPosition, FunctionPosition, SingleBlockScope
+    from gtirb_rewriting import rewriting as RW
+    from gtirb_rewriting.scopes import ENTRYPOINT_NAME, MAIN_NAME, _SpecificLocationScope
+    from gtirb_rewriting.utils import _is_partial_disassembly, _nonterminator_instructions
+
+    logging.disable(logging.CRITICAL)
+    case = LE.strip_case(dict(case, edits=[]))
+    try:
+        B = emodify.build(json.loads(json.dumps(case)))
+        funcs = gtirb_functions.Function.build_functions(B.m)
+    except Exception as e:  # noqa: BLE001
+        ctx.count("harness-error")
+        ctx.notes.append("harness could not build a store case: %r" % (e,))
+        return
+    POS = {"entry": BlockPosition.ENTRY, "exit": BlockPosition.EXIT, "anywhere": BlockPosition.ANYWHERE}
+
+    def pat(p):
+        if p is None:
+            return None
+        out = set()
+        for x in p:
+            if "lit" in x:
+                out.add(x["lit"])
+            elif "prefix" in x:
+                out.add(re.compile(re.escape(x["prefix"]) + ".*"))
+            elif "main" in x:
+                out.add(MAIN_NAME)
+            else:
+                out.add(ENTRYPOINT_NAME)
+        return out
+
+    blocks = list(B.blocks)
+    bid = {id(b): i for i, b in enumerate(blocks)}
+    store = RW._ModificationStore()
+    for r in regs:
+        if r["kind"] == "all_blocks":
+            sc = AllBlocksScope(POS[r["pos"]], pat(r.get("exclude")))
+        elif r["kind"] == "single":
+            sc = SingleBlockScope(blocks[r["block"]], POS[r["pos"]])
+        elif r["kind"] == "all_functions":
+            sc = AllFunctionsScope(FunctionPosition.ENTRY if r["fpos"] == "entry" else FunctionPosition.EXIT, POS[r["pos"]], pat(r.get("functions")))
+        else:
+            sc = _SpecificLocationScope(blocks[r["block"]], r["off"], r["repl"])
+        if r["kind"] == "specific" and r["repl"] and r["id"] % 2:
+            store.add(RW._Deletion(r["id"], sc, False))
+        else:
+            store.add(RW._InsertionOrReplacement(r["id"], sc, b""))
+    decoder = GtirbInstructionDecoder(B.m.isa)
+    envs, real = [], []
+    for i, b in enumerate(blocks):
+        if id(b) not in bid or b.byte_interval is None:
+            continue
+        func = None
+        if isinstance(b, gtirb.CodeBlock):
+            for f in funcs:
+                if b in f.get_all_blocks():
+                    func = f
+        env = {"id": i, "code": isinstance(b, gtirb.CodeBlock), "func": None, "nonterm": [], "partial": False}
+        if func is not None:
+            env["func"] = {"name": func.get_name(), "has_entry": B.m.entry_point in func.get_entry_blocks(),
+                           "is_entry": b in func.get_entry_blocks(), "is_exit": b in func.get_exit_blocks()}
+        if isinstance(b, gtirb.CodeBlock):
+            insns = tuple(decoder.get_instructions(b))
+            env["nonterm"] = [x.size for x in _nonterminator_instructions(b, insns)]
+            env["partial"] = bool(_is_partial_disassembly(b, insns))
+        out = {}
+        try:
+            mods = store.modifications_for_block(B.m, b, func)
+            out["mods"] = [m.id for m in mods]
+            try:
+                res = store.resolve_offsets(b, decoder, mods)
+                out["resolved"] = [[m.id, off] for m, off in res]
+            except AssertionError as e:
+                out["error"] = "overlap" if "overlap" in str(e) else "assert"
+        except Exception as e:  # noqa: BLE001
+            out["error"] = "other:" + type(e).__name__
+        envs.append(env)
+        real.append(out)
+    sregs = [{"id": r["id"], "scope": {k: v for k, v in r.items() if k != "id"}} for r in regs]
+    payload = {"store": True, "case": case, "regs": regs}
+    ctx.case(payload, nontrivial=bool(regs))
+    ctx.count("store-case")
+    # direct judgement of the real answers against the statement (independent of the model):
+    # nothing dropped or doubled, listing order, non-overlapping; a refusal only when requests do overlap
+    by_id = {r["id"]: r for r in regs}
+    for env, out in zip(envs, real):
+        rl = lambda i: by_id[i].get("repl", 0)   # noqa: E731
+        if "resolved" in out:
+            ctx.count("store:resolved:%d" % min(len(out["resolved"]), 4))
+            ids = [x[0] for x in out["resolved"]]
+            if sorted(ids) != sorted(out["mods"]):
+                ctx.violation("C07:store-drops-or-doubles", "resolve_offsets answered %s for the modifications %s" % (ids, out["mods"]), payload)
+            keys = [(off, rl(i) != 0, i) for i, off in out["resolved"]]
+            if keys != sorted(keys):
+                ctx.violation("C07:store-order", "resolve_offsets order (offset, replaces, id): %s" % (keys,), payload)
+            for (i1, o1), (i2, o2) in zip(out["resolved"], out["resolved"][1:]):
+                if o1 + rl(i1) > o2:
+                    ctx.violation("C07:store-accepts-overlap", "requests %d@%d+%d and %d@%d overlap and were accepted" % (i1, o1, rl(i1), i2, o2), payload)
+        elif out.get("error") == "overlap":
+            ctx.count("store:refused-overlap")
+            # offsets by the statement: explicit ones as requested, ENTRY/ANYWHERE 0, EXIT behind the non-terminators
+            def off_of(i):
+                r = by_id[i]
+                if r["kind"] == "specific":
+                    return r["off"]
+                return sum(env["nonterm"]) if r.get("pos") == "exit" else 0
+            keys = sorted((off_of(i), rl(i) != 0, i) for i in out["mods"])
+            if all(a[0] + rl(a[2]) <= b[0] for a, b in zip(keys, keys[1:])):
+                ctx.violation("C07:store-refuses-valid", "non-overlapping requests %s refused as overlapping" % (keys,), payload)
+        else:
+            ctx.count("store:" + str(out.get("error")))
+    pending.append((payload, real, {"op": "store_resolve", "regs": sregs, "envs": envs}))
+
+
+def flush_store(ctx, pending):
+    if not pending or not ctx.driver_ok:
+        pending.clear()
+        return
+    try:
+        ans = ask_driver([p[2] for p in pending])
+    except Exception as e:  # noqa: BLE001
+        ctx.driver_ok = False
+        ctx.notes.append("driver failure: %r" % (e,))
+        pending.clear()
+        return
+    for (payload, real, req), a in zip(pending, ans):
+        if "blocks" not in a:
+            ctx.mismatch("the store model could not be evaluated: %s" % (a.get("err"),), payload)
+            continue
+        for env, r, m in zip(req["envs"], real, a["blocks"]):
+            if "error" in m:
+                m = dict(m, error="overlap" if "overlap" in m["error"] else "assert")
+            if r != m:
+                ctx.mismatch("_ModificationStore on block %d: real %s, model %s" % (env["id"], r, m), payload)
+                break
+    pending.clear()
+
+
 def run(ctx):
     pending = []
     # the recorded finding: a zero-sized code block designated by a scope
@@ -351,10 +533,28 @@ def run(ctx):
         if len(pending) >= 300:
             flush(ctx, pending)
     flush(ctx, pending)
+    # the store and the scope classes on their own, against the Lean model
+    spending = []
+    for _ in range(ctx.budget(600, 15000)):
+        case = rename_functions(emodify.gen_case(ctx.rng, nedits=0), ctx.rng)
+        for d in case["text"]:
+            if d["kind"] == "code" and d["insns"][-1][0] == "call" and ctx.rng.random() < 0.3:
+                d["insns"][-1] = ["syscall"]
+        if ctx.rng.random() < 0.4:
+            code = [i for i, d in enumerate(case["text"]) if d["kind"] == "code"]
+            case["entry"] = ctx.rng.choice(code)
+        store_case(ctx, case, gen_store_regs(ctx.rng, case), spending)
+        if len(spending) >= 300:
+            flush_store(ctx, spending)
+    flush_store(ctx, spending)
 
 
 def replay(ctx, payload):
     pending = []
     p = payload.get("case", payload)
+    if p.get("store"):
+        store_case(ctx, p["case"], p["regs"], pending)
+        flush_store(ctx, pending)
+        return
     check_case(ctx, p["case"], p["regs"], p.get("two_passes", False), pending)
     flush(ctx, pending)
